@@ -82,14 +82,13 @@ func LargestSet(dimensions []Dimensions, limit Dimensions) ([]uint64, Dimensions
 	}
 	// remove all unwanted indices from the array.
 	j := 0
-	for i := 0; i < len(outIndices)-j; i++ {
+	for i := 0; i < len(outIndices); i++ {
 		if outIndices[i] == uint64(len(dimensions)) {
-			j++
-			i--
 			continue
 		}
-		outIndices[i] = outIndices[i+j]
+		outIndices[j] = outIndices[i]
+		j++
 	}
-	outIndices = outIndices[:len(outIndices)-j]
+	outIndices = outIndices[:j]
 	return outIndices, accumulator
 }
